@@ -8,7 +8,7 @@ mkdir -p run evidence replays
 cd coq
 ( echo "-Q theories IB"; find theories -name '*.v' | sort ) > _CoqProject
 coq_makefile -f _CoqProject -o Makefile
-timeout 3000 make -j16
+timeout 3000 make -k -j16 || echo "WARNING: some Coq files did not build; the affected checks will report it"
 cd ../harness
 cp /repo/Cargo.lock Cargo.lock
 cp /repo/Cargo.lock .repo-lock-copy
